@@ -182,6 +182,7 @@ def gen_case(rng, tier, g):
                                     if h[0] == 'TO' and rng.random() < 0.2],
             'failed_at': rng.randint(0, 6),
             'fluent': rng.random() < 0.15,
+            'same_object': rng.random() < 0.25,
             'relname': rng.choice(['http_status', 'https-certs', 'ftp_list',
                                    'smb_share', 's3_dump', 'file_x', 'C_'])
             if target.startswith('path') and rng.random() < 0.3 else None,
@@ -441,8 +442,26 @@ def run_case(case):
             since_to = []       # tables written since the last TO
             enc_args = dict((k, v) for k, v in args.items()
                             if k in ('encoding', 'errors'))
+            same = None
             for opi, (op, tenc, wh) in enumerate(case['history']):
                 table = dec_table(tenc)
+                if case.get('same_object'):
+                    # the caller keeps ONE list of lists and edits it in place
+                    # between the writes (header row object included):
+                    # nothing may be remembered by the identity of its parts
+                    if same is None:
+                        same = [list(r) for r in table]
+                    else:
+                        if same and table:
+                            same[0][:] = table[0]
+                            same[1:] = [list(r) for r in table[1:]]
+                        else:
+                            same[:] = [list(r) for r in table]
+                    wtable = same       # (what is handed to petl; the model
+                    #                     keeps its own copy, `table`)
+                    probes['one-table-object-edited-in-place'] = 1
+                else:
+                    wtable = table
                 if len(table) > 1:
                     nontrivial = True
                 whe = _default_wh(fmt, op) if wh is None else wh
@@ -504,7 +523,7 @@ def run_case(case):
                         except Exception:
                             pass
                 try:
-                    _write(e, fmt, op, table, tgt.w, args, wh)
+                    _write(e, fmt, op, wtable, tgt.w, args, wh)
                 except (UnicodeError, KeyError, IndexError, csv.Error) as ex:
                     if fmt in ('json', 'jsonlines', 'jsonarrays') and \
                             isinstance(ex, UnicodeError) and \
